@@ -543,7 +543,79 @@ def check_runstate(ctx, R="C14.runstate"):
             )
 
 
+# calls allowed between marking a scenario as running and registering it for cleanup, without protection (reason each)
+UNPROTECTED_START_CALLS = {
+    "toMonitor": "builds an rv_ltl monitor object from an already compiled proposition; evaluates no user code",
+}
+
+
+def check_started(ctx, R="C14.started"):
+    ctx.rule(
+        R,
+        "a scenario marked as running is registered for cleanup or unmarked: Simulation's cleanup stops exactly the scenarios in "
+        "veneer.runningScenarios, and the top-level scenario object is started again by every simulation; so between `super()._start()` "
+        "(which sets _isRunning) and `veneer.startScenario(self)` (which registers) DynamicScenario._start makes no call that can raise "
+        "(guards and other user code) unless it sits in a try whose handler unmarks the scenario (`super()._stop()` / `_isRunning = False`) "
+        "and re-raises",
+    )
+    model = ctx.model
+    fn = model.func(DS, "DynamicScenario._start")
+    mark = [c for c in walk_local(fn) if isinstance(c, ast.Call) and unparse(c.func) == "super()._start"]
+    reg = [c for c in walk_local(fn) if isinstance(c, ast.Call) and unparse(c.func).endswith("startScenario") and [unparse(a) for a in c.args] == ["self"]]
+    if len(mark) != 1 or len(reg) != 1:
+        raise AnalysisError("shape not recognised: running mark / registration in DynamicScenario._start")
+    sim = model.func(SI, "Simulation.__init__")
+    cleans = [l for l in ast.walk(sim) if isinstance(l, ast.For) and "runningScenarios" in unparse(l.iter) and any(isinstance(c, ast.Call) and isinstance(c.func, ast.Attribute) and c.func.attr == "_stop" for c in ast.walk(l))]
+    if not cleans:
+        raise AnalysisError("shape not recognised: the cleanup loop over veneer.runningScenarios in Simulation.__init__")
+    lo, hi = (mark[0].lineno, mark[0].col_offset), (reg[0].lineno, reg[0].col_offset)
+    n = 0
+    for c in walk_local(fn):
+        if not isinstance(c, ast.Call) or c is mark[0] or c is reg[0] or not (lo < (c.lineno, c.col_offset) < hi):
+            continue
+        name = c.func.attr if isinstance(c.func, ast.Attribute) else c.func.id if isinstance(c.func, ast.Name) else unparse(c.func)
+        if any(isinstance(a, ast.Assert) for a in ancestors(c)):
+            continue
+        n += 1
+        if name in UNPROTECTED_START_CALLS:
+            ctx.ok(R, c, f"`{norm_text(c, 40)}` before registration: {UNPROTECTED_START_CALLS[name]}")
+            continue
+        prot = False
+        inside_handler = False
+        child = c
+        for a in ancestors(c):
+            if a is fn:
+                break
+            if isinstance(a, ast.ExceptHandler):
+                inside_handler = True
+            if isinstance(a, ast.Try) and any(child is s_ for s_ in a.body):
+                for h in a.handlers:
+                    catches_all = h.type is None or unparse(h.type) in ("BaseException", "Exception")
+                    unmarks = any(
+                        (isinstance(x, ast.Call) and unparse(x.func) in ("super()._stop", "Invocable._stop"))
+                        or (isinstance(x, ast.Assign) and any(unparse(t) == "self._isRunning" for t in x.targets) and isinstance(x.value, ast.Constant) and x.value.value is False)
+                        for s_ in h.body
+                        for x in ast.walk(s_)
+                    )
+                    reraises = any(isinstance(x, ast.Raise) and x.exc is None for s_ in h.body for x in ast.walk(s_))
+                    if catches_all and unmarks and reraises:
+                        prot = True
+            child = a
+        if prot or inside_handler:
+            ctx.ok(R, c, f"`{norm_text(c, 40)}` before registration is covered by a handler that unmarks the scenario and re-raises")
+        else:
+            ctx.finding(
+                R,
+                c,
+                f"unprotected call {norm_text(c, 40)} before registration",
+                f"DynamicScenario._start calls `{norm_text(c, 60)}` after marking the scenario as running and before registering it with the veneer: if the call raises (a "
+                f"precondition violation, say) nothing stops the scenario, and every later simulation of the same compiled scenario fails `assert not self._isRunning`",
+            )
+    ctx.floor(R, n, 2, "calls between the running mark and the registration")
+
+
 def check(ctx):
+    check_started(ctx)
     check_runstate(ctx)
     check_globals(ctx)
     check_context_managers(ctx)
